@@ -6,6 +6,7 @@
 //! A reply line is `<observable>` optionally followed by `\t#FAIL:<key>:<explanation>` when the
 //! implementation-side property oracle fails for that request.
 mod c01;
+mod c02;
 mod c04;
 mod c06;
 mod c07;
@@ -34,6 +35,7 @@ fn run_line(prop: &str, line: &str) -> String {
   let args = &toks[1..];
   let r = std::panic::catch_unwind(|| match prop {
     "C01" => c01::run(args),
+    "C02" => c02::run(args),
     "C04" => c04::run(args),
     "C06" => c06::run(args),
     "C07" => c07::run(args),
@@ -71,6 +73,7 @@ fn main() {
       let thorough = tier == "thorough";
       match prop {
         "C01" => c01::gen(thorough, seed, &mut out),
+        "C02" => c02::gen(thorough, seed, &mut out),
         "C04" => c04::gen(thorough, seed, &mut out),
         "C06" => c06::gen(thorough, seed, &mut out),
         "C07" => c07::gen(thorough, seed, &mut out),
